@@ -347,7 +347,13 @@ func (g *G) genDidMsg() (sdk.Msg, string) {
 			}
 		}
 		g.proofIntent = target
-		vmid, sig, how := g.proof(doc, auth, docBytes(doc), 0, nil)
+		content := docBytes(doc)
+		if target != did && g.chance("proof-over-readdressed-copy", 50) {
+			// the signer signed the same document with its id replaced by the DID field
+			content = docBytes(readdressed(doc, target))
+			note += "(proof over the re-addressed copy)"
+		}
+		vmid, sig, how := g.proof(doc, auth, content, 0, nil)
 		return &didtypes.MsgCreateDIDRequest{Did: target, Document: doc, VerificationMethodId: vmid, Signature: sig, FromAddress: from}, note + " proof=" + how
 	}
 	// update / deactivate: choose a target
@@ -444,7 +450,12 @@ func (g *G) genDidMsg() (sdk.Msg, string) {
 		doc = g.genDoc(docDID, newAuth)
 	}
 	g.proofIntent = did
-	vmid, sig, how := g.proof(stored, cur, docBytes(doc), seq, stored)
+	content := docBytes(doc)
+	if doc != nil && doc.Id != "" && doc.Id != did && g.chance("proof-over-readdressed-copy", 50) {
+		content = docBytes(readdressed(doc, did))
+		note += "(proof over the re-addressed copy)"
+	}
+	vmid, sig, how := g.proof(stored, cur, content, seq, stored)
 	return &didtypes.MsgUpdateDIDRequest{Did: did, Document: doc, VerificationMethodId: vmid, Signature: sig, FromAddress: from}, note + " proof=" + how
 }
 
@@ -714,4 +725,35 @@ func (g *G) retarget(msg sdk.Msg) (sdk.Msg, bool) {
 		x.Did, x.VerificationMethodId = c.did, c.vmid
 	}
 	return msg, true
+}
+
+// genDidReads draws 1-3 reads of registered (active or deactivated) DIDs as a client would
+// issue them at any moment -- also between the transactions of a block -- against the latest
+// state or against an earlier height that is still available.
+func (g *G) genDidReads() *world.Step {
+	dids := sortedKeys(g.W.DID.Entries)
+	if len(dids) == 0 {
+		dids = []string{world.DIDKeys()[0].DID()}
+	}
+	var qs []world.QueryStep
+	for n := 1 + g.intn("nreads", 3); n > 0; n-- {
+		d := pick(g, "read-did", dids)
+		req := &didtypes.QueryDIDRequest{DidBase64: base64.StdEncoding.EncodeToString([]byte(d))}
+		bz, _ := req.Marshal()
+		q := world.QueryStep{Path: "/panacea.did.v2.Query/DID", Data: base64.StdEncoding.EncodeToString(bz)}
+		if h := g.W.C.Height; h > 1 && g.chance("earlier-height", 60) {
+			q.Height = 1 + int64(g.intn("height", int(h)))
+		}
+		qs = append(qs, q)
+	}
+	return &world.Step{Kind: "queries", Queries: qs}
+}
+
+// readdressed returns a copy of doc whose id is did (everything else untouched).
+func readdressed(doc *didtypes.DIDDocument, did string) *didtypes.DIDDocument {
+	var c didtypes.DIDDocument
+	bz, _ := doc.Marshal()
+	_ = c.Unmarshal(bz)
+	c.Id = did
+	return &c
 }
